@@ -16,6 +16,9 @@ CHECKS = {
  "C12": ("exploration", "reference-model oracle (map id->bytes) over real badger store, public RPC server and admin service; differential isolation against a single-stream store",
          "Random multisets of VAAs over prefix-related chain ids (2/25/255, 1/10/10001, 4/42), overlapping sequences and overwrites are stored in a real badger store; every stored id, its near misses and all neighbouring streams are queried through db, PublicrpcServer (GetSignedVAA, Get*VAABatch) and admin FindMissingMessages; answers must equal the model and, for gap scans, the answer of a second store holding only that stream.",
          "Sequence windows 0..41; non-empty payloads. An empty stream may report sequence 0 as missing (streams start at 0).", "3/C12"),
+ "C16": ("fault_enumeration", "SIGKILL injection into writer child processes at PRNG-chosen points; fresh verifier process checks every acknowledged id",
+         "Writer children stream unique (cycle,seq,version) VAAs of 100 B..256 KiB (with overwrites) into one badger directory through the real db.StoreSignedVAA and acknowledge each on a pipe; the parent SIGKILLs them after the k-th ACK + delay, right after a BEGIN, during open, or kills the verifier during its own reopen; after every kill a fresh process reopens the directory and looks up every id of all cycles: acknowledged => exact bytes of the acknowledged (or a later begun) version, unacknowledged => not-found or exact bytes, never anything else; reopen must succeed.",
+         "Process kill only (page cache survives), as the property states; kill points are sampled, not enumerated at instruction granularity.", "3/C16"),
  "C07": ("exploration", "differential runtime oracle, exhaustive n=0..255, contract formulas extracted from source at run time",
          "Exhaustive over the whole one-byte domain: the real CalculateQuorum is executed for every n in 0..255 and compared with floor(2n/3)+1 and with the quorum expressions read from Messages.sol and governance.ral in the working tree; BFT inequalities asserted per n.",
          "Contract expressions are evaluated by the harness' own integer evaluator (truncating division), not by an EVM/Alephium VM; an expression the extractor cannot parse makes the run inconclusive.", "3/C07"),
